@@ -139,8 +139,38 @@ func c13RunConfine(r *vcore.Run, c c13Case) {
 	}) {
 		return
 	}
+	c13Judge(r, c, fp, c13Eff(c.Prefix), backend.topCalls())
+	if !strings.Contains(c.Prefix, "|") || c.Scope == "" {
+		return
+	}
+	// a view and the view derived from it, both in use with the same context scope: what one of them has
+	// worked out for a scope must not be what the other one sends
+	parts := strings.SplitN(c.Prefix, "|", 2)
+	for _, order := range []string{"parent-first", "child-first"} {
+		b2 := newRecBackend()
+		b2.Repos = backend.Repos
+		parent := ocifilter.Sub(b2.Funcs(), parts[0])
+		child := c13Sub(parent, parts[1])
+		first, second, effSecond := parent, child, c13Eff(c.Prefix)
+		if order == "child-first" {
+			first, second, effSecond = child, parent, parts[0]
+		}
+		n0 := 0
+		if r.Guard("confine", fp+"/"+order+"/scope-"+c13ScopeClass(c.Scope), c, func() {
+			c12UseWriter(callMethod(ctx, first, c.Method, a))
+			n0 = len(b2.topCalls())
+			c12UseWriter(callMethod(ctx, second, c.Method, a))
+		}) {
+			return
+		}
+		c13Judge(r, c, fp+"/view-and-derived-view/"+order, effSecond, b2.topCalls()[n0:])
+	}
+}
+
+// c13Judge compares what the backend received with what a view with the effective prefix eff must send.
+func c13Judge(r *vcore.Run, c c13Case, fp, eff string, calls []recCall) {
 	check := func(what, given, got string) {
-		want := c13Eff(c.Prefix) + "/" + given
+		want := eff + "/" + given
 		if got == want {
 			r.Outcome("mapped-exactly")
 			return
@@ -149,14 +179,14 @@ func c13RunConfine(r *vcore.Run, c c13Case) {
 			r.Outcome("backend-got-invalid-name")
 			return // cannot name any repository
 		}
-		under := strings.HasPrefix(got, c13Eff(c.Prefix)+"/")
+		under := strings.HasPrefix(got, eff+"/")
 		kind := "alias-inside-prefix"
 		if !under {
 			kind = "escapes-prefix"
 		}
 		r.Violate("confine", fmt.Sprintf("%s/%s/%s/name-%s", fp, what, kind, nameClass(given)), c, fmt.Sprintf("backend %s argument %q (or no call)", what, want), fmt.Sprintf("%q", got))
 	}
-	for _, cl := range backend.topCalls() {
+	for _, cl := range calls {
 		if cl.Method == "Repositories" {
 			continue
 		}
@@ -165,10 +195,10 @@ func c13RunConfine(r *vcore.Run, c c13Case) {
 			check("from-repository", c.From, cl.FromRepo)
 		}
 		got := ociauth.ScopeFromContext(cl.ctx)
-		want := c13WantScope(c13Eff(c.Prefix), c.Scope)
+		want := c13WantScope(eff, c.Scope)
 		if !got.Equal(want) {
 			r.Violate("confine", fmt.Sprintf("%s/scope-not-rewritten/scope-%s", fp, c13ScopeClass(c.Scope)), c, want.Canonical().String(), got.Canonical().String())
-		} else if txt, bad := c13ScopeTextWrong(c13Eff(c.Prefix), c.Scope, got); bad {
+		} else if txt, bad := c13ScopeTextWrong(eff, c.Scope, got); bad {
 			r.Violate("confine", fmt.Sprintf("%s/scope-text-not-rewritten/scope-%s", fp, c13ScopeClass(c.Scope)), c, "String() of the rewritten scope names the prefixed repositories: "+want.Canonical().String(), txt)
 		}
 	}
